@@ -170,7 +170,7 @@ def run_check(module, prop, cfg_fn, harvest_cfgs, args, budgets, notes):
     hv_viol = {}
     t1 = time.time()
     hv_args = []
-    for wi, hc in enumerate(harvest_cfgs(args.tier, seed)):
+    for wi, hc in enumerate([] if getattr(args, 'no_harvest', False) else harvest_cfgs(args.tier, seed)):
         files = hc.pop("files")
         nsh = hc.pop("shards")
         for f in files:
